@@ -80,6 +80,103 @@ func facts(repo string, w io.Writer) error {
 		fmt.Fprintf(w, "(* pkg/store/proxy.go ProxyStore.Series: "+d.note+" *)\n", s.ExprString(d.e))
 		fmt.Fprintf(w, "Definition %s %s : bool :=\n  %s.\n", d.name, d.params, e)
 	}
+	return timerFacts(repo, w)
+}
+
+// timerFacts: where the lazy receiver pauses its frame-timeout timer (t.Reset(MaxInt64)) relative to
+// cl.Recv() and to the appends into the ring buffer (which may block), and under which condition.
+func timerFacts(repo string, w io.Writer) error {
+	s, err := common.ParseSrc(repo, "pkg/store/proxy_merge.go")
+	if err != nil {
+		return err
+	}
+	fd, err := s.FindFunc("newLazyRespSet")
+	if err != nil {
+		return err
+	}
+	var lit *ast.FuncLit
+	ast.Inspect(fd.Body, func(n ast.Node) bool {
+		if as, ok := n.(*ast.AssignStmt); ok && lit == nil && len(as.Lhs) == 1 && len(as.Rhs) == 1 {
+			if id, ok := as.Lhs[0].(*ast.Ident); ok && id.Name == "handleRecvResponse" {
+				lit, _ = as.Rhs[0].(*ast.FuncLit)
+			}
+		}
+		return true
+	})
+	if lit == nil {
+		return fmt.Errorf("srcfacts: pkg/store/proxy_merge.go: newLazyRespSet: handleRecvResponse closure not found")
+	}
+	isPause := func(n ast.Node) bool {
+		found := false
+		ast.Inspect(n, func(m ast.Node) bool {
+			if c, ok := m.(*ast.CallExpr); ok && s.ExprString(c.Fun) == "t.Reset" && len(c.Args) == 1 &&
+				strings.Contains(s.ExprString(c.Args[0]), "math.MaxInt64") {
+				found = true
+			}
+			return true
+		})
+		return found
+	}
+	hasCall := func(n ast.Node, callee string) bool {
+		found := false
+		ast.Inspect(n, func(m ast.Node) bool {
+			if c, ok := m.(*ast.CallExpr); ok && s.ExprString(c.Fun) == callee {
+				found = true
+			}
+			return true
+		})
+		return found
+	}
+	iRecv, iPause, iAppend := -1, -1, -1
+	var pauseCond ast.Expr
+	for i, st := range lit.Body.List {
+		if iRecv < 0 && hasCall(st, "cl.Recv") {
+			iRecv = i
+			continue
+		}
+		if is, ok := st.(*ast.IfStmt); ok && iPause < 0 && is.Else == nil && isPause(is.Body) && !hasCall(is, "l.rb.append") {
+			iPause, pauseCond = i, is.Cond
+		}
+		if iAppend < 0 && iRecv >= 0 && i > iRecv+1 && hasCall(st, "l.rb.append") {
+			iAppend = i
+		}
+	}
+	if iRecv < 0 || iPause < 0 || iAppend < 0 {
+		return fmt.Errorf("srcfacts: pkg/store/proxy_merge.go: handleRecvResponse: Recv / timer pause / buffer append statements not found (%d %d %d)", iRecv, iPause, iAppend)
+	}
+	// the condition under which the timer is paused: a conjunction of `t != nil` (a timer exists) and
+	// possibly tests of the buffer state
+	var conj []string
+	var split func(e ast.Expr) error
+	split = func(e ast.Expr) error {
+		if be, ok := e.(*ast.BinaryExpr); ok && be.Op == token.LAND {
+			if err := split(be.X); err != nil {
+				return err
+			}
+			return split(be.Y)
+		}
+		if pe, ok := e.(*ast.ParenExpr); ok {
+			return split(pe.X)
+		}
+		switch s.ExprString(e) {
+		case "t != nil":
+			conj = append(conj, "true")
+		case "l.rb.isFull()":
+			conj = append(conj, "buffer_full")
+		case "!l.rb.isFull()":
+			conj = append(conj, "(negb buffer_full)")
+		default:
+			return fmt.Errorf("srcfacts: handleRecvResponse: timer pause condition %q not understood", s.ExprString(e))
+		}
+		return nil
+	}
+	if err := split(pauseCond); err != nil {
+		return err
+	}
+	fmt.Fprintf(w, "(* pkg/store/proxy_merge.go newLazyRespSet/handleRecvResponse: `if %s { t.Reset(MaxInt64) }` is statement %d, cl.Recv() statement %d, the first (possibly blocking) l.rb.append statement %d *)\n",
+		s.ExprString(pauseCond), iPause, iRecv, iAppend)
+	fmt.Fprintf(w, "Definition timer_pause_cond (buffer_full : bool) : bool :=\n  (%s).\n", strings.Join(conj, " && "))
+	fmt.Fprintf(w, "Definition timer_pause_after_recv_before_append : bool := %s.\n", common.Bool(iRecv < iPause && iPause < iAppend))
 	return nil
 }
 
